@@ -183,6 +183,26 @@ def collect(prop, repo):
                 return 'undecided', 'Subscription has methods without a contract: %s' % sorted(extra)
         ob('subscription.encapsulated', 'src/subscription.rs', subscription_shape)
 
+        def using_drop():
+            # `dropping a utils::Using guard unsubscribes` - on EVERY way the guard is dropped, including a drop during unwinding,
+            # which neither Kani (no unwinding) nor the Kani-shaped native harness can exercise: the Drop body must be the
+            # unconditional call (the call itself is under contract: k_sub_using_drop_unsubscribes, Subscription::unsubscribe)
+            src = _read(repo, 'src/utils/using.rs')
+            toks = rxprep.strip_test_mods(tree(src))
+            try:
+                body, _ = rxprep.find_fn(toks, 'drop', None)
+            except rxprep.AnchorLost as e:
+                return 'failed', 'utils::Using has no Drop::drop any more: dropping the guard does not unsubscribe (%s)' % e
+            txt = re.sub(r'\s+', '', src[body.start:body.end])
+            if txt == '{self.subscription.unsubscribe();}':
+                return None
+            if 'self.subscription.unsubscribe()' not in txt:
+                return 'failed', 'Using::drop no longer calls self.subscription.unsubscribe(): %s' % txt[:200]
+            if re.search(r'\b(if|return|match|panicking|catch_unwind)\b', txt):
+                return 'failed', 'Using::drop unsubscribes only conditionally (some way of dropping the guard leaves the subscription alive): %s' % txt[:200]
+            return 'undecided', 'Using::drop is no longer exactly `self.subscription.unsubscribe();`: %s' % txt[:200]
+        ob('using.drop_unsubscribes_unconditionally', 'src/utils/using.rs', using_drop)
+
     if prop in ('C06', 'C17'):
         def sctl_shape():
             src = _read(repo, 'src/internals/stream_controller.rs')
